@@ -282,11 +282,8 @@ Section Codec4.
              (atts : list attr) (txt : option text) (kids : list xn) : out val :=
     match t with
     | TPrim PText =>                                                 (* unicode_from_element *)
-        match txt with
-        | None => if x4_soft C && negb nillable then VFault          (* validate_string(cls, None) *)
-                  else do v <- lc_rd L PText []; Ok (VLeaf v)
-        | Some s => do v <- lc_rd L PText s; Ok (VLeaf v)
-        end
+        (* an element without text holds the empty string, and that is what is validated *)
+        do v <- lc_rd L PText (match txt with None => [] | Some s => s end); Ok (VLeaf v)
     | TPrim p =>                                                     (* base_from_element *)
         match txt with
         | None => if x4_soft C && negb nillable then VFault else Ok VNone
